@@ -191,6 +191,11 @@ func (r *Report) finish(verifDir string, seed int64) int {
 	for _, n := range r.Notes {
 		fmt.Println("   note:", n)
 	}
+	if os.Getenv("ZNCHECK_VERBOSE") != "" {
+		for _, o := range r.Obls {
+			fmt.Printf("   OBL %s [%s] %s at %s: %s\n", o.Status, o.Rule, o.Construct, o.Pos, oneLine(o.Detail))
+		}
+	}
 	for _, o := range r.Obls {
 		if o.Status == Known {
 			what := o.Detail
